@@ -126,6 +126,15 @@ def main():
                 # conformation that carries the atom) was lost
                 gone = set(lab for lab, idx, deps in cen
                            if idx in lost or any(d in lost for d in deps))
+                if f.get('multiconf'):
+                    # conformations are topped up from one another: a side-chain
+                    # group whose defining atom survives in ANY conformation
+                    # remains (termini keep the strict rule: their status
+                    # depends on neighbouring records of their own conformation)
+                    alive = set(lab for lab, idx, deps in cen
+                                if idx not in lost and not any(d in lost for d in deps))
+                    gone = set(lab for lab in gone
+                               if lab[:2] in ('N+', 'C-') or lab not in alive)
                 expected = []
                 for lab, idx, deps in cen:
                     if lab not in gone and lab not in expected:
